@@ -148,7 +148,9 @@ Record m_attr := { ma_name : name; ma_value : ares str; ma_ispec : bool; ma_dspe
 Record m_node := { mn_name : name; mn_vals : list piece; mn_from_dtd : bool }.
 
 (** [Element::attributes]: [attributes_specified()] then, for each merged definition whose default
-    is not [Implied] and whose name is not among [items] (which grows), [new_from_declaration]:
+    is not [Implied], whose name is no namespace declaration ([is_namespace_declaration]: it is supplied
+    through [namespace_attributes] instead, /repo commit bf629dc, D67) and is not among [items] (which
+    grows), [new_from_declaration]:
     the values of a [Value(_, values)] default, no values otherwise (so [Required] is materialised
     with an empty value: defect D36, pinned by info::tests::test_attribute_specified_required). *)
 Fixpoint m_defaults (items : list m_node) (defs : list attdef) : list m_node :=
@@ -156,6 +158,7 @@ Fixpoint m_defaults (items : list m_node) (defs : list attdef) : list m_node :=
   | [] => items
   | d :: r =>
       let present := existsb (fun v => str_eqb (mn_name v) (ad_name d)) items in
+      if m_namespace (ad_name d) then m_defaults items r else
       match ad_default d with
       | Implied => m_defaults items r
       | Required =>
